@@ -11,6 +11,7 @@ import (
 type seqProfile struct {
 	minSteps, maxSteps                                                                                   int
 	wTxn, wCreateCol, wCreateIndex, wDropIndex, wCreateSort, wDropSort, wCreateTrig, wDropTrig, wRestart int
+	wDropCol                                                                                             int // drop a late column (no computed columns on it); a later createcol may reuse the name
 	// op weights inside a transaction
 	wInsert, wAt, wRange, wDelete, wDeleteAll, wCount, wAgg, wAscend, wKey int
 	pAbort, pFailInsert, pMerge                                            float64
@@ -88,6 +89,7 @@ type gen struct {
 	indexes []IndexSpec
 	sorts   []SortSpec
 	trigs   []string
+	dropped []string // names of dropped columns (a later createcol may reuse one)
 	av      avoid
 	nameSeq int
 	keys    []string
@@ -547,7 +549,7 @@ func genSeq(prop string, seed uint64, run int, p seqProfile, av avoid) *Case {
 	}
 	nsteps := r.Range(p.minSteps, p.maxSteps)
 	for i := 0; i < nsteps; i++ {
-		wts := []int{p.wTxn, p.wCreateCol, p.wCreateIndex, p.wDropIndex, p.wCreateSort, p.wDropSort, p.wCreateTrig, p.wDropTrig, p.wRestart}
+		wts := []int{p.wTxn, p.wCreateCol, p.wCreateIndex, p.wDropIndex, p.wCreateSort, p.wDropSort, p.wCreateTrig, p.wDropTrig, p.wRestart, p.wDropCol}
 		switch r.Weighted(wts) {
 		case 0:
 			cs.Steps = append(cs.Steps, Step{Kind: "txn", Txn: g.genTxn()})
@@ -561,6 +563,13 @@ func genSeq(prop string, seed uint64, run int, p seqProfile, av avoid) *Case {
 			c := ColSpec{Name: g.name("late_" + string(k)), Kind: k}
 			if k == KString && r.Chance(0.5) {
 				c.Merge = "concat"
+			}
+			if len(g.dropped) > 0 && r.Chance(0.6) {
+				// a new column under the name of a dropped one (possibly of another type): nothing of
+				// the old column may show through
+				j := r.Intn(len(g.dropped))
+				c.Name = g.dropped[j]
+				g.dropped = append(g.dropped[:j], g.dropped[j+1:]...)
 			}
 			g.cols = append(g.cols, c)
 			cs.Steps = append(cs.Steps, Step{Kind: "createcol", Col: &c})
@@ -617,6 +626,28 @@ func genSeq(prop string, seed uint64, run int, p seqProfile, av avoid) *Case {
 			g.trigs = append(g.trigs[:k], g.trigs[k+1:]...)
 		case 8:
 			cs.Steps = append(cs.Steps, Step{Kind: "restart", Arg: r.Intn(1 << 16)})
+		case 9:
+			// drop a column nothing is computed from
+			var dc []int
+			for i, c := range g.cols {
+				used := c.Name == "expire" || c.Kind == KKey
+				for _, ix := range g.indexes {
+					used = used || ix.Col == c.Name
+				}
+				for _, sx := range g.sorts {
+					used = used || sx.Col == c.Name
+				}
+				if !used && len(g.trigs) == 0 {
+					dc = append(dc, i)
+				}
+			}
+			if len(dc) == 0 || len(g.cols) <= 2 {
+				continue
+			}
+			i := dc[r.Intn(len(dc))]
+			cs.Steps = append(cs.Steps, Step{Kind: "dropcol", Name: g.cols[i].Name})
+			g.dropped = append(g.dropped, g.cols[i].Name)
+			g.cols = append(g.cols[:i:i], g.cols[i+1:]...)
 		}
 	}
 	return cs
